@@ -116,3 +116,39 @@ for _t in ("ATOM", "HETATM"):
     for _cf in (False, True):
         for _ch in ("", "A"):
             globals()[f"ws_{_t}_{int(_cf)}{_ch or '_'}"] = _ws(f"{_t}.{int(_cf)}{_ch or '_'}", _t, _cf, _ch)
+
+
+# ---------------------------------------------------------------- --whitespace: PLAIN white-space tokenisation
+# (the property names any white-space tokeniser, not only pdb2pqr's own reader, which is forgiving about glued fields)
+def _wt(tag, t, cf, ch):
+    k = 1 if (cf and ch != "") else 0
+
+    @harness(["C08", "C09"],
+             params={"atom": ATOM(type=Const(t), chain_id=Const(ch)), "chainflag": Const(cf),
+                     "args": Obj("Namespace", output_pqr=TmpPath(), whitespace=Const(True))},
+             requires=[],
+             ensures=[
+                 f"len(result) == {10 + k}",
+                 "result[0] == atom.type and result[1] == fmt(atom.serial, 'd')",
+                 "result[2] == atom.name and result[3] == atom.res_name",
+                 f"implies({bool(k)}, result[4] == atom.chain_id)",
+                 f"result[{4 + k}] == fmt(atom.res_seq, 'd')",
+                 f"result[{5 + k}] == fmt(atom.x, '.3f') and result[{6 + k}] == fmt(atom.y, '.3f') and result[{7 + k}] == fmt(atom.z, '.3f')",
+                 f"result[{8 + k}] == fmt(atom.ffcharge, '.4f') and result[{9 + k}] == fmt(atom.radius, '.4f')",
+             ],
+             known=WS,
+             name=f"whitespace_tokens.{tag}",
+             budget=60000)
+    def ws_tokens(atom, chainflag, args):
+        line = atom.get_pqr_string(chainflag=chainflag) + "\n"
+        print_pqr(args, [line], "", None, False)
+        with open(args.output_pqr) as back:
+            text = back.readlines()
+        return text[0].split()
+
+    return ws_tokens
+
+
+for _t in ("ATOM", "HETATM"):
+    for _cf, _ch in ((False, ""), (True, "A")):
+        globals()[f"wt_{_t}_{int(_cf)}{_ch or '_'}"] = _wt(f"{_t}.{int(_cf)}{_ch or '_'}", _t, _cf, _ch)
